@@ -1,11 +1,50 @@
-/- BDS 6,1 — crates/rs1090/src/decode/bds/bds61.rs   (STUB: not modelled yet) -/
+/-
+BDS 6,1 aircraft status — crates/rs1090/src/decode/bds/bds61.rs
+
+`AircraftStatus` is the payload of `ME::BDS61` (`#[deku(id = "28")]`, plain id: the reader continues
+after the 5-bit type code).  Only 3 + 3 + 13 = 19 bits are read, for **every** subtype (the struct
+has no variant for subtype 2 "ACAS RA" or the reserved ones): the remaining 32 ME bits are never
+consumed, so the enclosing `ADSB.parity` is read from ME bits 24..48 — harmless, because the field
+is `#[serde(skip)]` and `Message::try_from` only checks the length of the *outer* reader.
+-/
 import Rs1090.Model.Decode.Common
 namespace Rs1090.Model.Bds61
 open Rs1090 Rs1090.Model
 
-/-- STUB -/
-def modelled : Bool := false
+def modelled : Bool := true
 
-def read : R SerFields := R.fail .other
+/-- `AircraftStatusType` (3-bit id; `id_pat = "_"` catch-all is a unit variant: no field, hence no
+    `seek_last_read`); `rename_all = "snake_case"` plus two explicit renames -/
+def subtypeName (v : Nat) : Key :=
+  match v with
+  | 0 => key! "no_information"
+  | 1 => key! "emergency_priority"
+  | 2 => key! "acas_ra"
+  | _ => key! "reserved"
+
+/-- `EmergencyState` (3-bit id, all eight discriminants exist); `rename_all = "snake_case"` -/
+def emergencyName (v : Nat) : Key :=
+  match v with
+  | 0 => key! "none"
+  | 1 => key! "general"
+  | 2 => key! "medical"
+  | 3 => key! "minimum_fuel"
+  | 4 => key! "no_communication"
+  | 5 => key! "unlawful_interference"
+  | 6 => key! "downed_aircraft"
+  | _ => key! "reserved"
+
+/-- `IdentityCode::read`: 13 bits big-endian through `decode_id13`; serialised as `{:04x}` -/
+def squawk (raw : Nat) : Nat := decodeId13 raw
+
+/-- `AircraftStatus`, starting right after the 5-bit type code -/
+def read : R SerFields := do
+  let st ← enumId 3
+  let es ← enumId 3
+  let raw ← bits 13
+  pure <| .ok [
+    fld (key! "subtype") (.lit (subtypeName st)),
+    fld (key! "emergency_state") (.lit (emergencyName es)),
+    fld (key! "squawk") (jhex4 (squawk raw)) ]
 
 end Rs1090.Model.Bds61
